@@ -442,6 +442,7 @@ func (c15) Exec(sc *sim.Scenario, env *sim.Env) *sim.Violation {
 		out := m.step(op)
 		panicked, msg := asmApply(e, op)
 		after := snapEmitter(e)
+		resyncFlags(m, e, op, out)
 		env.ObsBool(panicked)
 		obsSnap(env, after)
 		if v := accessorViolation(after, i, op); v != nil {
